@@ -96,6 +96,8 @@ def check(ctx: Ctx, col: Collector, tier: str) -> None:
                      ("x", ("x", Sym("expr.fullname")))):
         st = State({})
         st.eq[repr(Sym("expr.name"))] = Const(nm)
+        # a name mypy could bind has a non-empty fullname (an unbound one cannot be named as a type: C01.IMPORT-SOURCE)
+        st.facts[f"truthy:{Sym('expr.fullname')!r}"] = True
         outs = ctx.interp(efi).run_function(efi, {ep: Sym("expr", "NameExpr")}, st)
         key = f"{HELPERS}::mypy_expression_to_sds_type::NameExpr:{nm}"
         def named_ok(o):
